@@ -431,10 +431,13 @@ func readStripedT[S, D signal.SignalTypes](src *signal.Buffer[S], lens []int, ni
 	dst := make([][]D, len(lens), len(lens)+5)
 	for k := range lens {
 		if !nils[k] {
-			dst[k] = make([]D, lens[k])
-			for i := range dst[k] {
-				dst[k][i] = D(sentinel)
+			// every row has three elements of spare capacity beyond its length, filled with the sentinel: a reader
+			// may write the row's length and nothing behind it
+			full := make([]D, lens[k]+3)
+			for i := range full {
+				full[i] = D(sentinel)
 			}
+			dst[k] = full[:lens[k]]
 		}
 	}
 	out = make([][]int64, len(lens))
@@ -442,6 +445,18 @@ func readStripedT[S, D signal.SignalTypes](src *signal.Buffer[S], lens []int, ni
 		// the caller's slices are reported even when the call panics (C15)
 		for k := range dst {
 			out[k] = codes(dst[k])
+			if !nils[k] {
+				if len(dst[k]) != lens[k] {
+					out[k] = append(out[k], -3) // the row's length was changed
+					continue
+				}
+				for _, x := range dst[k][lens[k] : lens[k]+3] {
+					if x != D(sentinel) {
+						out[k] = append(out[k], -2) // written behind the end of the caller's row: never a valid result
+						break
+					}
+				}
+			}
 		}
 	}()
 	begin()
